@@ -100,6 +100,12 @@ class SimFileHandle:
         self.ofd = ofd
 
     def fileno(self):
+        t = current_task()
+        if t is not None:
+            e = t.proc.fds.get(self.fd)
+            if e is None or e.ofd is not self.ofd:
+                # like a Python file object after close()
+                raise ValueError("I/O operation on closed file")
         return self.fd
 
     def close(self):
@@ -454,6 +460,24 @@ class FakeOS:
         s.ev(p.name, "chmod", (s.norm(p, path), oct(mode)))
         s.tick()
 
+    def fchown(self, fd, uid, gid):
+        s, t, p = ctx()
+        _sysfail(s, p, "chown")
+        o = s.entry(p, fd).ofd
+        if p.euid != 0:
+            raise PermissionError(errno.EPERM, "Operation not permitted")
+        if o.kind == "file":
+            if uid != -1:
+                o.obj.uid = uid
+            if gid != -1:
+                o.obj.gid = gid
+        else:
+            # Linux: fchown() on a socket descriptor changes the anonymous sockfs inode, never the file-system node a
+            # unix socket is bound to
+            o.sock_owner = (uid, gid)
+        s.ev(p.name, "fchown", (fd, uid, gid))
+        s.tick()
+
     def chown(self, path, uid, gid):
         s, t, p = ctx()
         _sysfail(s, p, "chown")
@@ -738,6 +762,8 @@ class SimSocket:
             l.addr = addr
         else:
             host, port = addr[0], addr[1]
+            if host == "localhost":
+                host = "127.0.0.1" if self.family == _socket.AF_INET else "::1"      # the kernel only knows numeric addresses
             if port == 0:
                 s.port_seq += 1
                 port = s.port_seq
@@ -778,6 +804,16 @@ class SimSocket:
             s.fault("sys:accept:%s" % errno.errorcode.get(code, code))
             s.tick()
             raise OSError(code, _os.strerror(code))
+        if l.queue and o.nonblock and s.buggify.get("accept_eagain") and s.choices.coin(1, 5, "accept-eagain"):
+            # a sibling process sharing the listener took the connection first (it is served elsewhere)
+            s.fault("accept_lost_race_eagain")
+            stolen = l.queue.pop(0)
+            s.stolen.append(stolen)
+            stolen.closed = True              # the sibling is outside the simulation: its client simply sees the connection end
+            if stolen.peer is not None:
+                stolen.peer.eof = True
+            s.tick()
+            raise BlockingIOError(errno.EAGAIN, "Resource temporarily unavailable")
         if not l.queue:
             if o.nonblock:
                 s.tick()
